@@ -417,6 +417,7 @@ GENERATORS = {'C16': gen_c16, 'C07': gen_c07, 'C14': gen_c14, 'C17': gen_c17, 'C
 from extract_m import GENERATORS_M  # noqa: E402  pylint: disable=wrong-import-position
 GENERATORS.update(GENERATORS_M)
 USES_PRELUDE = set(GENERATORS_M)
+EXTRA_IMPORTS = {'C12': ('PysparklingVerif.Model.Sql',)}      # the value universe `SV` and Python truthiness come from the model
 
 
 def generate(prop, repo):
@@ -424,7 +425,9 @@ def generate(prop, repo):
     src, body = GENERATORS[prop](repo)
     head = HEADER % (src, prop, prop)
     if prop in USES_PRELUDE:
-        head = head.replace('namespace PysparklingVerif', 'import PysparklingVerif.Extracted.Prelude\nset_option linter.unusedVariables false\nnamespace PysparklingVerif', 1)
+        more = ''.join('import %s\n' % m for m in EXTRA_IMPORTS.get(prop, ()))
+        head = head.replace('namespace PysparklingVerif', 'import PysparklingVerif.Extracted.Prelude\n' + more +
+                            'set_option linter.unusedVariables false\nnamespace PysparklingVerif', 1)
     text = head + body + '\nend PysparklingVerif.Gen.%s\n' % prop
     os.makedirs(OUT_DIR, exist_ok=True)
     path = os.path.join(OUT_DIR, 'Gen%s.lean' % prop)
@@ -440,10 +443,15 @@ if __name__ == '__main__':
     repo = os.environ.get('VERIF_REPO', '/repo')
     if args and args[0] == '--repo':
         repo, args = args[1], args[2:]
+    lost = 0
     for p in (args or sorted(GENERATORS)):
         try:
             path, text = generate(p, repo)
             print('%s -> %s (%d lines)' % (p, os.path.relpath(path, VERIF), text.count('\n')))
         except NotTranslatable as e:
             print('%s NOT TRANSLATABLE: %s' % (p, e))
-            sys.exit(3)
+            lost += 1
+        except Exception as e:  # pylint: disable=broad-except
+            print('%s EXTRACTOR FAILED: %r' % (p, e))
+            lost += 1
+    sys.exit(3 if lost else 0)
